@@ -231,6 +231,21 @@ func (fc *FnCtx) doNext(x *ssa.Next) {
 		if rng, ok := x.Iter.(*ssa.Range); ok {
 			s := fc.operand(rng.X)
 			fc.cur.assume(implies(v.L[0], and(app("bvsle", bvLit(0, 64), v.L[1]), app("bvslt", v.L[1], app("strlen", s.L[0])))))
+			// the iterator walks the string from byte 0 upwards: the index is the current position, the loop ends
+			// when the position reaches the length, a byte below 0x80 is a rune of its own and advances by one
+			name := fc.rangePosName(rng)
+			pos := fc.cur.get(name, bvSort(64))
+			ln := app("strlen", s.L[0])
+			npos := fc.declareFresh("rangepos", bvSort(64))
+			b := app("strat", s.L[0], pos)
+			ascii := app("bvult", b, bvLit(0x80, 8))
+			fc.cur.assume(and(
+				eq(v.L[0], app("bvult", pos, ln)),
+				implies(v.L[0], and(eq(v.L[1], pos), app("bvult", pos, npos), app("bvule", npos, ln))),
+				implies(and(v.L[0], ascii), and(eq(npos, app("bvadd", pos, bvLit(1, 64))), eq(v.L[2], app("(_ zero_extend 24)", b)))),
+				implies(not(v.L[0]), eq(npos, pos))))
+			fc.cur = fc.cur.derive()
+			fc.cur.set(name, bvSort(64), npos)
 		}
 	}
 	fc.setVal(x, v)
